@@ -127,6 +127,26 @@ func buildTargets(c *fw.Ctx) []*target {
 			// the same matcher as the second member of a matcher set, behind a "not" matcher (which evaluates matcher sets
 			// of its own), on a connection whose peer has unlimited data waiting behind the prefetched bytes: matching
 			// works on the prefetched bytes alone, so the verdict comes at once and costs no more than on its own
+			// the same matcher after its configuration was unloaded (connections accepted before a reload are still matched
+			// by the old instance, whose clean-up has run by then): it answers or errs, it does not panic
+			if !strings.Contains(gt.Name(), "/c14#") || gt.Matcher == "openvpn" {
+				gtc := gt
+				var released *mt.Matcher
+				out = append(out, &target{name: name + "+released", udp: udp, slow: true, seeds: gt.Seeds, matcher: gt.Matcher, config: gt.Config,
+					call: func(in []byte) (string, error) {
+						if released == nil {
+							r, err := mt.Load(gtc.Matcher, gtc.Config)
+							if err != nil {
+								return "err", err
+							}
+							r.Close()
+							released = r
+						}
+						cx, _ := mt.NewConn(in, mt.Opts{UDP: udp})
+						v, err := released.EvalOn(cx)
+						return string(v), err
+					}})
+			}
 			if notM != nil && !strings.Contains(gt.Name(), "/c14#") {
 				out = append(out, &target{name: name + "+behind-not", udp: udp, slow: true, seeds: gt.Seeds, matcher: gt.Matcher, config: gt.Config,
 					call: func(in []byte) (string, error) {
